@@ -4,6 +4,8 @@ import json
 import re
 
 import common
+import gen_common
+import par_common
 import sched_common
 
 DEP_FILES = ["SchedModel.v", "SchedLemmas.v", "SchedInv.v", "SchedInv2.v", "SchedProps.v", "SchedInv3.v",
@@ -37,6 +39,9 @@ def run(chk):
             break
     if conc:
         chk.sample({"concurrent_enqueue": conc[0]})
+    # race detector over the generated plumbing (variables per type, predicate flags, ran flags, Results copies)
+    gen_common.apply_race(chk, 400 if chk.tier == "quick" else 100000)
+    par_common.apply_race(chk, 300 if chk.tier == "quick" else 100000)
     chk.assumptions += sched_common.ASSUMPTIONS["*"] + [
         "Go memory model: a channel send happens before the corresponding receive completes; close before a receive that returns because of it (taken as given)",
         "that no shared location exists besides the modelled ones is established by the race detector runs, not by a theorem (partial)"]
